@@ -73,7 +73,7 @@ func c16Holds(s *SugarDB, k string, p c16Pre, ob string) {
 		for _, m := range p.members {
 			good = good && st.Contains(m)
 		}
-		vr.Assert(good, ob)
+		vr.Assert(good && setEnumOK(st, p.members), ob)
 	}
 }
 
